@@ -82,6 +82,18 @@ def plan_record(tid, out_bytes, align, summary_csv, stdout, accel):
         for i in s["io"]["inputs"] + s["io"]["outputs"]:
             if i >= 0 and off["offsets"][i] >= 0:
                 io_end = max(io_end, off["offsets"][i] + T[i]["size"])
+    # fast scratch (custom-operator input 3): when the arena is not in SRAM (spilling memory modes) the model asks the
+    # run time for an SRAM buffer of that size, and the stream touches region 2 up to touched_fast
+    fast_size = max([T[i]["size"] for i in fast_ids] + [0])
+    touched_fast = 0
+    for s in ss:
+        for o in s["ops"]:
+            if o["fp"] is None:
+                continue
+            for (_, reg, iv) in o["fp"]["rd"] + o["fp"]["wr"]:
+                if reg == 2 and iv:
+                    touched_fast = max(touched_fast, iv[-1][1])
+    reported_fast, console_fast, arena_in_sram = -1, -1, True
     reported, console = -1, -1
     if summary_csv:
         rows = list(csv.reader(io.StringIO(summary_csv)))
@@ -94,8 +106,15 @@ def plan_record(tid, out_bytes, align, summary_csv, stdout, accel):
             m = re.search(r"Total %s used\s+([0-9.]+) KiB" % re.escape(AREA_LABEL.get(area, "?")), stdout or "")
             if m:
                 console = int(float(m.group(1)) * 1024)
+            arena_in_sram = area == "SRAM"
+            if not arena_in_sram and "sram_memory_used" in rec:
+                reported_fast = int(round(float(rec["sram_memory_used"]) * 1024))
+                m = re.search(r"Total SRAM used\s+([0-9.]+) KiB", stdout or "")
+                if m:
+                    console_fast = int(float(m.group(1)) * 1024)
     return {"t": tid, "align": align, "plan": plan, "scratch": scratch, "touched": touched, "io_end": io_end,
-            "reported": reported, "console": console}, None
+            "reported": reported, "console": console, "spilling": not arena_in_sram, "fast_size": fast_size,
+            "touched_fast": touched_fast, "reported_fast": reported_fast, "console_fast": console_fast}, None
 
 
 def main(tier):
